@@ -75,6 +75,15 @@ CHECKS = {
         design_ref="DESIGN.md 5 C11",
         technique="TLA+ spec + TLC MC with restart/activate actions + TLC trace validation of construction-time callbacks",
     ),
+    "C12": dict(
+        category="model_checking",
+        text=("In the spec every callback names its provider and an instance holds a provider SET (AddListener = union); the trace spec accepts a "
+              "callback begin only if its provider is attached to the instance being processed and the provider object belongs to that "
+              "instance; executions with names distributed and duplicated over machine/model/constructor listeners/late listeners, repeated "
+              "attachment, two instances of one class with different listeners, sync/async listener methods are validated against it."),
+        design_ref="DESIGN.md 5 C12",
+        technique="TLA+ spec (provider sets) + TLC MC + TLC trace validation of per-provider callback lines",
+    ),
     "C13": dict(
         category="model_checking",
         text=("All calling styles are mapped to the one ExtCall action of the spec, so histories mixing send / event methods / items of events "
